@@ -381,8 +381,16 @@ func checkEntry(e entry) {
 			hexFollow = true
 		}
 	}
-	if hexFollow {
+	maxParams := 0
+	for _, ps := range parsed {
+		if k := nparams(ps); k > maxParams {
+			maxParams = k
+		}
+	}
+	if hexFollow && maxParams <= 2 { // every value is crossed with every other per parameter: small templates only
 		instVals = append(instVals, "v%20w", "v%C3%A9", "%2A")
+	} else {
+		hexFollow = false
 	}
 	paths := map[string]bool{}
 	instances := map[string]bool{}
